@@ -1,5 +1,6 @@
 """Harness: import the library from the CURRENT tree, crash reporting,
 logical-step budgets, wall-clock watchdog (inconclusive only), temp dirs."""
+import collections
 import contextlib
 import faulthandler
 import gc
@@ -29,7 +30,8 @@ def setup():
         faulthandler.enable()
     except Exception:
         pass
-    warnings.simplefilter('ignore')
+    warnings.simplefilter('always')
+    warnings.showwarning = _record_warning
     os.environ.setdefault('MPLBACKEND', 'Agg')
     import numpy as np
     np.seterr(all='ignore')
@@ -40,10 +42,23 @@ def setup():
                            % (got, src))
     # the library re-enables warnings printing through its own wrapper
     import PseudoNetCDF.pncwarn as pw
-    pw.clean_showwarning = lambda *a, **k: None
-    pw.std_showwarning = lambda *a, **k: None
-    warnings.showwarning = lambda *a, **k: None
+    pw.clean_showwarning = _record_warning
+    pw.std_showwarning = _record_warning
+    warnings.showwarning = _record_warning
     _setup_done = True
+
+
+WARN_LOG = collections.deque(maxlen=500)
+
+
+def _record_warning(message, category, filename, lineno, file=None,
+                    line=None):
+    """Warnings are observations (C16: 'warned as requested'), not noise."""
+    try:
+        WARN_LOG.append((getattr(category, '__name__', str(category)),
+                         str(message)))
+    except Exception:
+        pass
 
 
 def tree_id():
